@@ -111,6 +111,40 @@ func main() {
 				report(viol{"C16|ParseOTPAuthURL|roundtrip|GOARCH=386", "on a 32-bit build a generated TOTP URL does not parse back to its parameters", fmt.Sprintf("%+v", up), fmt.Sprintf("period %d", wantP), fmt.Sprintf("%s -> %+v err=%v panic=%v", text, back, err, p)})
 			}
 		}
+		// numbers written in a URL: refused, or parsed as exactly the number written (also the ones that are congruent to
+		// a plausible value modulo 2^8, 2^32 or 2^64)
+		for _, n := range []string{"0", "6", "8", "30", "255", "256", "262", "65542", "2147483647", "2147483648", "4294967295", "4294967296", "4294967302", "4294967304", "4294967326", "8589934622",
+			"9223372036854775807", "9223372036854775808", "9223372036854775838", "18446744073709551615", "18446744073709551616", "18446744073709551622", "18446744073709551646"} {
+			for _, key := range []string{"digits", "period"} {
+				text := "otpauth://totp/I:a?secret=AAAAAAAA&" + key + "=" + n
+				var back *otp.URLParam
+				var err error
+				p := catch(func() {
+					pu, e := url.Parse(text)
+					if e != nil {
+						err = e
+						return
+					}
+					back, err = otp.ParseOTPAuthURL(pu)
+				})
+				evals++
+				if p != nil {
+					report(viol{"C16|ParseOTPAuthURL|panic|GOARCH=386", "ParseOTPAuthURL panics on a 32-bit build", text, "parameters or an error", fmt.Sprint(p)})
+					continue
+				}
+				if err != nil || back == nil {
+					continue
+				}
+				v, perr := strconv.ParseUint(n, 10, 64)
+				got := uint64(back.Period)
+				if key == "digits" {
+					got = uint64(back.Digits)
+				}
+				if perr != nil || got != v {
+					report(viol{"C16|ParseOTPAuthURL|number-wrapped|" + key + ",GOARCH=386", "on a 32-bit build the URL parser reports a number that is not the one written in the URL", text, "rejection, or exactly " + n, fmt.Sprint(got)})
+				}
+			}
+		}
 	case "C15":
 		for _, n := range []string{"262", "65542", "2147483647", "2147483648", "2147483654", "4294967295", "4294967296", "4294967302", "35791395", "596523", "35791394", "596524", "9223372036854775807", "18446744073709551622"} {
 			for _, u := range []string{"S", "M", "H"} {
